@@ -149,7 +149,7 @@ func (h *Hub) isSkiConnected(ski string) bool {
 //
 // returns error contains a reason for failing the connection or nil if no further tries should be processed
 func (h *Hub) connectFoundService(remoteService *api.ServiceDetails, host, port, path string) error {
-	if h.isSkiConnected(remoteService.SKI()) {
+	if h.isSkiConnected(remoteService.SKI()) || h.checkHasShutdown() {
 		return nil
 	}
 
@@ -275,7 +275,7 @@ func (h *Hub) sendWSCloseMessage(conn *websocket.Conn) {
 
 // coordinate connection initiation attempts to a remove service
 func (h *Hub) coordinateConnectionInitations(ski string, entry *api.MdnsEntry) {
-	if h.isConnectionAttemptRunning(ski) {
+	if h.isConnectionAttemptRunning(ski) || h.checkHasShutdown() {
 		return
 	}
 
@@ -320,7 +320,8 @@ func (h *Hub) prepareConnectionInitation(ski string, counter int, entry *api.Mdn
 	}
 
 	// connection attempt is not relevant if the device is already connected
-	if h.isSkiConnected(ski) {
+	// or the hub is shut down
+	if h.isSkiConnected(ski) || h.checkHasShutdown() {
 		return
 	}
 
